@@ -28,3 +28,33 @@ Inductive arity_mode := ArityStrict | ArityStrictNonEmpty | ArityTruncate | Arit
 
 Definition C06_expected_fallback : fb_mode := FbRaise.
 Definition C06_expected_arity : arity_mode := ArityStrict.
+
+(** THIRD expectation (round-3 closing): function-local imports with an alias.  `_handle_fn_body` records a
+    function-local `from m import a as b` / `import a.b as c` in ctx.fns / ctx.modules / ctx.symbols:
+
+      AliasIgnored    SNAPSHOT of the shipped code: under `alias.name` -- the name b (c) the function really uses stays
+                      unknown to the translator (or, worse, resolves to the MODULE-LEVEL binding of b), and the name a is
+                      bound for the translator although Python did not bind it: `from slow import scale as sc; return scale(s)`
+                      is translated with slow.scale while Python calls the module-level scale
+                      (finding C06 local-import-alias-ignored)
+      AliasHonoured   fixes/C06-import-alias.diff: under `alias.asname or alias.name`, as Python binds it
+
+    Flip with  python3 tools/c06_switch.py alias repaired <commit>. *)
+Inductive alias_mode := AliasHonoured | AliasIgnored | AliasUnknown.
+
+(** FOURTH expectation: what `get_fn_ast` does with a LAMBDA.  inspect.getsource(lambda) is the whole source statement
+    the lambda is written in:
+
+      LamDefLine        SNAPSHOT of the shipped code: refused ("Not a function") unless that statement is a `def` (the lambda
+                        is a default value or a decorator argument of it) -- then the DEF is translated in the lambda's
+                        place (finding C06 lambda-on-def-line)
+      LamRefused        fixes/C06-lambda-not-a-def.diff: a lambda is always refused
+      LamFirstMatching  seeded C06-10: the first ast.Lambda (ast.walk order) of the statement whose parameter names equal
+                        the lambda's is wrapped as a def -- every lambda of a statement with the same parameter list is
+                        translated from the body of the first
+
+    Flip with  python3 tools/c06_switch.py lambda repaired <commit>. *)
+Inductive lambda_mode := LamRefused | LamDefLine | LamFirstMatching | LamUnknown.
+
+Definition C06_expected_alias : alias_mode := AliasHonoured.
+Definition C06_expected_lambda : lambda_mode := LamRefused.
